@@ -131,17 +131,33 @@ func selectOf(request *ovsdb.MonitorRequest) *ovsdb.MonitorSelect {
 	return request.Select
 }
 
+// filterColumns keeps the requested columns of a row. A nil set of columns
+// means that the request did not name columns: all of them are monitored.
 func filterColumns(row *ovsdb.Row, columns map[string]bool) *ovsdb.Row {
 	if row == nil {
 		return nil
 	}
 	new := make(ovsdb.Row, len(*row))
 	for k, v := range *row {
-		if _, ok := columns[k]; ok {
+		if _, ok := columns[k]; ok || columns == nil {
 			new[k] = v
 		}
 	}
 	return &new
+}
+
+// requestedColumns returns the set of columns a monitor request names for a
+// table, nil if it names none (RFC7047: all columns are monitored then)
+func requestedColumns(request *ovsdb.MonitorRequest) map[string]bool {
+	if request == nil || request.Columns == nil {
+		return nil
+	}
+	cols := make(map[string]bool)
+	cols["_uuid"] = true
+	for _, c := range request.Columns {
+		cols[c] = true
+	}
+	return cols
 }
 
 func (m *monitor) filter(update database.Update) ovsdb.TableUpdates {
@@ -155,11 +171,7 @@ func (m *monitor) filter(update database.Update) ovsdb.TableUpdates {
 			continue
 		}
 		tu := ovsdb.TableUpdate{}
-		cols := make(map[string]bool)
-		cols["_uuid"] = true
-		for _, c := range m.request[table].Columns {
-			cols[c] = true
-		}
+		cols := requestedColumns(m.request[table])
 		_ = update.ForEachRowUpdate(table, func(uuid string, ru2 ovsdb.RowUpdate2) error {
 			ru := &ovsdb.RowUpdate{}
 			ru.FromRowUpdate2(ru2)
@@ -169,7 +181,7 @@ func (m *monitor) filter(update database.Update) ovsdb.TableUpdates {
 			case ru.Modify() && selectOf(m.request[table]).Modify():
 				fallthrough
 			case ru.Delete() && selectOf(m.request[table]).Delete():
-				if len(cols) == 0 {
+				if cols != nil && len(cols) == 0 {
 					return nil
 				}
 				ru.New = filterColumns(ru.New, cols)
@@ -194,11 +206,7 @@ func (m *monitor) filter2(update database.Update) ovsdb.TableUpdates2 {
 			continue
 		}
 		tu2 := ovsdb.TableUpdate2{}
-		cols := make(map[string]bool)
-		cols["_uuid"] = true
-		for _, c := range m.request[table].Columns {
-			cols[c] = true
-		}
+		cols := requestedColumns(m.request[table])
 		_ = update.ForEachRowUpdate(table, func(uuid string, ru2 ovsdb.RowUpdate2) error {
 			switch {
 			case ru2.Insert != nil && selectOf(m.request[table]).Insert():
@@ -206,7 +214,7 @@ func (m *monitor) filter2(update database.Update) ovsdb.TableUpdates2 {
 			case ru2.Modify != nil && selectOf(m.request[table]).Modify():
 				fallthrough
 			case ru2.Delete != nil && selectOf(m.request[table]).Delete():
-				if len(cols) == 0 {
+				if cols != nil && len(cols) == 0 {
 					return nil
 				}
 				ru2.Insert = filterColumns(ru2.Insert, cols)
